@@ -98,9 +98,13 @@ def line_map_rule(ctx, res, rule):
     cn = b["params"][0]["pat"].get("name")
     ok = None
     why = ""
-    folds = [n for n in T.nodes(b["tree"], "mcall") if n["name"] == "fold" and T.render(n["recv"]) == "%s.char_indices()" % cn]
-    fors = [n for n in T.nodes(b["tree"], "for") if T.render(n["iter"]) == "%s.char_indices()" % cn]
-    filt = [n for n in T.nodes(b["tree"], "mcall") if n["name"] == "filter" and T.render(n["recv"]) == "%s.char_indices()" % cn]
+    # (position, unit) pairs of the text: characters with their byte offsets, or - a line feed being one byte that never occurs
+    # inside a multi-byte sequence - the bytes with their indices
+    srcs = {x % cn for x in ("%s.char_indices()", "%s.bytes().enumerate()", "%s.as_bytes().iter().enumerate()", "%s.as_bytes().iter().copied().enumerate()")}
+    NL = ("'\\n'", "10")
+    folds = [n for n in T.nodes(b["tree"], "mcall") if n["name"] == "fold" and T.render(n["recv"]) in srcs]
+    fors = [n for n in T.nodes(b["tree"], "for") if T.render(n["iter"]) in srcs]
+    filt = [n for n in T.nodes(b["tree"], "mcall") if n["name"] == "filter" and T.render(n["recv"]) in srcs]
     mi = [n for n in T.nodes(b["tree"], "mcall") if n["name"] == "match_indices" and T.render(n["recv"]) == cn]
     if len(folds) + len(fors) == 1:
         # one step of the traversal on a symbolic character: an entry is pushed iff the character is '\n', and it is its position
@@ -128,13 +132,17 @@ def line_map_rule(ctx, res, rule):
         except A.Cannot as e:
             res.cannot(rule, fn, "line-map", str(e), loc)
             return
-        ok = len(outs) == 2 and len(vecs) == 2
+        ok = len(outs) in (2, 3) and len(vecs) == len(outs)
         for o, v in zip(outs, vecs):
             d = dict(o["decisions"])
             pushed = [A.show(x) for x in v.items]
-            if d == {"eq('\\n', c)": True} or d == {"eq(c, '\\n')": True}:
+            keys_nl = {"eq(%s, c)" % x for x in NL} | {"eq(c, %s)" % x for x in NL}
+            ord_keys = {"ord(c, 10)", "ord(10, c)"}
+            is_nl = (len(d) == 1 and set(d) <= keys_nl and list(d.values()) == [True]) or (len(d) == 1 and set(d) <= ord_keys and list(d.values()) == ["="])
+            not_nl = (len(d) == 1 and set(d) <= keys_nl and list(d.values()) == [False]) or (len(d) == 1 and set(d) <= ord_keys and list(d.values())[0] in ("<", ">"))
+            if is_nl:
                 ok = ok and pushed == ["pos"]
-            elif d == {"eq('\\n', c)": False} or d == {"eq(c, '\\n')": False}:
+            elif not_nl:
                 ok = ok and pushed == []
             else:
                 ok = False
@@ -148,7 +156,7 @@ def line_map_rule(ctx, res, rule):
             mc = T.peel(maps[0]["args"][0])
             if mc.get("k") == "closure" and len(mc["params"]) == 1 and mc["params"][0]["pat"].get("p") == "tuple":
                 first = T.local_of(T.peel(mc["body"])) == mc["params"][0]["pat"]["pats"][0].get("id")
-        ok = pred in ("{eq($e.1, '\\n')}", "{eq('\\n', $e.1)}") and first
+        ok = pred in ({"{eq($e.1, %s)}" % x for x in NL} | {"{eq(%s, $e.1)}" % x for x in NL} | {"{=:ord($e.1, 10)}", "{=:ord(10, $e.1)}"}) and first
         why = "filter predicate %s / projection" % pred
     elif len(mi) == 1:
         lit = T.lit_value(mi[0]["args"][0])
@@ -182,6 +190,7 @@ def line_map_rule(ctx, res, rule):
         "std::iter::Iterator::take_while": lambda I_, a, n, env: A.VecV(list(__import__("itertools").takewhile(lambda x: I_.truth(I_.apply(a[1], [x])), conc(a[0]).items))),
         "std::iter::Iterator::filter": lambda I_, a, n, env: A.VecV([x for x in conc(a[0]).items if I_.truth(I_.apply(a[1], [x]))]),
         "std::iter::Iterator::count": lambda I_, a, n, env: A.Lit(len(conc(a[0]).items)),
+        "std::iter::Iterator::enumerate": lambda I_, a, n, env: A.VecV([A.Tuple([A.Lit(i), x]) for i, x in enumerate(conc(a[0]).items)]),
         "std::iter::Iterator::rev": lambda I_, a, n, env: A.VecV(list(reversed(conc(a[0]).items))),
         "core::slice::len": lambda I_, a, n, env: A.Lit(len(conc(a[0]).items)),
         "std::vec::Vec::len": lambda I_, a, n, env: A.Lit(len(conc(a[0]).items)),
@@ -496,6 +505,8 @@ def colour(ctx, res, rule):
         for n, par in T.walk(body["tree"]):
             if n.get("k") != "path" or T.local_of(n) not in ids:
                 continue
+            if any(q.get("k") == "let" and q.get("forwarded") for q in par):
+                continue        # the defining `let` of a local that is read through (sa/forward.py): judged at its uses
             nuse[0] += 1
             nm = ids[T.local_of(n)]
             ctx_ok = False
